@@ -49,7 +49,7 @@ def topologies(tier):
                                   **({"groundplane": True} if kw.get("ground") else {}))
             return aero.build_aero([s], geom=True, compressible=kw.get("compressible", False), Mach=kw.get("Mach", 0.5), alpha=3.0, height_agl=15.0, setup_kw=setup_kw)
         return b
-    T.append(("aero-1surf-viscous", aero_one(), ["aero.CL", "aero.CD", "aero.CM"], ["alpha", "Mach_number", "wing.twist_cp", "wing.t_over_c_cp", "re", "v"], ["default", "ScipyKrylov", "LinearBlockGS"], 1e-6))
+    T.append(("aero-1surf-viscous", aero_one(), ["aero.CL", "aero.CD", "aero.CM"], ["alpha", "Mach_number", "wing.twist_cp", "wing.t_over_c_cp", "re", "v", "rho"], ["default", "ScipyKrylov", "LinearBlockGS"], 1e-6))
     T.append(("aero-1surf-wave-compressible", aero_one(wave=True, compressible=True, Mach=0.88), ["aero.CL", "aero.CD", "aero.CM"], ["alpha", "Mach_number", "wing.twist_cp", "wing.t_over_c_cp"], ["default"], 1e-6))
     T.append(("aero-1surf-ground-effect", aero_one(ground=True), ["aero.CL", "aero.CD"], ["alpha", "height_agl", "wing.twist_cp"], ["default"], 1e-6))
 
@@ -97,7 +97,7 @@ def topologies(tier):
             return structs.build_aerostruct(surfs, npoints=npoints, setup_kw=setup_kw, **kw)
         return b
     T.append(("aerostruct-tube", as_tube(), ["AS_point_0.fuelburn", "AS_point_0.CM", "AS_point_0.CL", "AS_point_0.CD", "AS_point_0.wing_perf.failure", "AS_point_0.L_equals_W", "wing.structural_mass"],
-              ["alpha", "Mach_number", "wing.twist_cp", "wing.thickness_cp", "load_factor"], ["default", "LinearBlockGS-coupled"], 1e-5))
+              ["alpha", "Mach_number", "wing.twist_cp", "wing.thickness_cp", "load_factor", "rho", "v"], ["default", "LinearBlockGS-coupled"], 1e-5))
     if tier != "quick":
         T.append(("aerostruct-tube-multipoint", as_tube(npoints=2), ["AS_point_0.fuelburn", "AS_point_1.wing_perf.failure", "AS_point_1.L_equals_W", "AS_point_0.CM"],
                   ["alpha", "wing.twist_cp", "wing.thickness_cp"], ["default"], 1e-5))
